@@ -176,8 +176,11 @@ func runDecLog(pyDict, su bool, hook string, inp []byte, stream bool) (string, [
 		c := consumedOf()
 		out = append(out, showDec(v, err, p, c-prev))
 		prev = c
-		if err != nil || p != "" {
+		if p != "" || errors.Is(err, io.EOF) || errors.Is(err, io.ErrUnexpectedEOF) {
 			break
+		}
+		if err != nil {
+			continue // the caller decides how far the stream is comparable after an error
 		}
 		vals = append(vals, v)
 		snaps = append(snaps, render(v))
@@ -305,7 +308,7 @@ func runDecR(pyDict, su bool, sched string, inp []byte) string {
 			s = s[:strings.LastIndex(s, " ")]
 		}
 		out = append(out, s)
-		if err != nil || p != "" {
+		if p != "" || errors.Is(err, io.EOF) || errors.Is(err, io.ErrUnexpectedEOF) {
 			break
 		}
 	}
